@@ -192,5 +192,40 @@ pub fn build(ctx: &Ctx) -> Vec<Box<dyn Arm>> {
     ctx.rule("histories (create, then 1..10 (thorough 40) ops: plain / embedded / chunked / log-filling puts, updates, deletes, commits, close+open, vacuum) executed once in a child process under an LD_PRELOAD recorder that logs every write / pwrite / ftruncate / fsync / rename / unlink / create / copy_file_range on the memory's directory together with BEGIN/END markers around every API call; the parent rebuilds the directory after EVERY prefix of that log (process-crash model: completed syscalls persist) and opens it; oracle: Memvid::open succeeds and the frame table + content digests equal the reference state after the acknowledged calls or the one including the in-flight call (references = the same run's kill-copy + recovery after each call); non-trivial = crash strictly inside an API call with at least one call acknowledged before");
     ctx.assume("reference states come from the same recorded run (kill-copy after each call, opened with recovery), so they are correct only if uninterrupted recovery is (C01 decides that against the model)");
     let t = ctx.tier;
-    vec![arm_with("every_prefix", t.pick(16, 300), 8, t.pick(8, 40), move || case(t.pick(10, 40)), check)]
+    ctx.rule("arm log_growth: 2..4 text puts + commit (so lexical, sketch and time tracks exist on disk), optionally close+open, then either one 66..90 KB put or two 36..45 KB puts so that the embedded log grows in place while records are pending, then 1..3 further puts / updates / deletes and a commit; every prefix is explored as above");
+    let growth = move || {
+        (
+            1u8..4,
+            prop::collection::vec(c01::put_spec(2500, 3200, false, true), 2..=4),
+            any::<bool>(),
+            any::<bool>(),
+            any::<u32>(),
+            prop::collection::vec(
+                prop_oneof![
+                    4 => c01::put_spec(2500, 3200, false, true).prop_map(Op::Put),
+                    2 => c01::upd_spec(1500, 1500, true).prop_map(|mut u| { u.allow_busy = false; Op::Update(u) }),
+                    2 => any::<u16>().prop_map(|target| Op::Delete { target }),
+                ],
+                1..=3,
+            ),
+        )
+            .prop_map(|(dim, texts, reopen, single, seed, tail)| {
+                let blob = |seed: u32, len: u32| Op::Put(crate::hist::PutSpec::simple(crate::gen::Payload::Blob { seed, len, kind: crate::gen::BlobKind::Random }, 4));
+                let mut ops: Vec<Op> = texts.into_iter().map(Op::Put).collect();
+                ops.push(Op::Commit);
+                if reopen {
+                    ops.push(Op::Reopen);
+                }
+                if single {
+                    ops.push(blob(seed, 66_000 + seed % 24_000));
+                } else {
+                    ops.push(blob(seed, 36_000 + seed % 9_000));
+                    ops.push(blob(seed ^ 0x77, 36_000 + (seed >> 8) % 9_000));
+                }
+                ops.extend(tail);
+                ops.push(Op::Commit);
+                CrashCase { dim, ops }
+            })
+    };
+    vec![arm_with("every_prefix", t.pick(16, 300), 8, t.pick(8, 40), move || case(t.pick(10, 40)), check), arm_with("log_growth", t.pick(4, 100), 8, t.pick(6, 40), growth, check)]
 }
